@@ -176,7 +176,13 @@ pub fn gen_libpar(r: &mut Rng, idx: usize) -> LibCase {
     let base = std::env::var("SLT_SCRATCH").unwrap_or_else(|_| "/verif/out/scratch".into());
     let dir = std::path::PathBuf::from(base).join(format!("libpar_{}", std::process::id()));
     let _ = std::fs::remove_dir_all(&dir);
-    std::fs::create_dir_all(dir.join("t")).unwrap();
+    // sometimes a deep directory: what distinguishes the files comes late in the path
+    let sub = if r.chance(1, 4) {
+        "t/a_directory_name_that_is_long_enough_to_fill_any_identifier_limit/and_one_more_level_below_it".to_string()
+    } else {
+        "t".to_string()
+    };
+    std::fs::create_dir_all(dir.join(&sub)).unwrap();
     let nfiles = r.range(1, 12);
     // every job count in turn; names that differ only in the characters the database name replaces
     let jobs = 1 + idx % 8;
@@ -198,7 +204,7 @@ pub fn gen_libpar(r: &mut Rng, idx: usize) -> LibCase {
     let mut files = vec![];
     let mut kinds = vec![];
     for n in &names {
-        let path = format!("{}/t/{}.slt", dir.to_string_lossy(), n);
+        let path = format!("{}/{}/{}.slt", dir.to_string_lossy(), sub, n);
         let kind = *r.pick(&["pass", "pass", "pass", "fail", "parse"]);
         std::fs::write(&path, file_text(r, &path, kind)).unwrap();
         files.push(path);
@@ -218,7 +224,7 @@ pub fn gen_libpar(r: &mut Rng, idx: usize) -> LibCase {
     MAX_YIELD.with(|m| m.set(max_yield));
 
     let rt = tokio::runtime::Builder::new_current_thread().enable_all().build().unwrap();
-    let glob = format!("{}/t/*.slt", dir.to_string_lossy());
+    let glob = format!("{}/{}/*.slt", dir.to_string_lossy(), sub);
     let res = std::panic::catch_unwind(std::panic::AssertUnwindSafe(|| {
         rt.block_on(async {
             let mut parent = Runner::new(|| async { Ok::<_, LogErr>(LogDb::new(MGMT.to_string())) });
